@@ -83,3 +83,19 @@ func findSource(name string) *moduleSource {
 	}
 	return nil
 }
+
+// gendump prints generated modules (development aid: feed them to llvm-as).
+func init() {
+	props["gendump"] = &propImpl{search: func() {
+		r := newRNG(*flagSeed)
+		for i := int64(0); i < *flagRuns; i++ {
+			name := fmt.Sprintf("gen:%d:%d", r.u64()%1000000, 10+r.intn(50))
+			m, err := genSource(name).Build()
+			if err != nil {
+				fmt.Printf("; %s: %v\n", name, err)
+				continue
+			}
+			fmt.Printf("; ---- %s\n%s\n", name, m.String())
+		}
+	}}
+}
